@@ -48,7 +48,8 @@ Logged(ln, a, e) ==
                Dim(ln.dims[i].k, ln.dims[i].n,
                    IF HasKind(e, ln.dims[i].k) THEN e.dims[PosOf(e, ln.dims[i].k)].idx ELSE "none")],
    name |-> NameOf(ln.name), dt |-> e.dt,
-   al |-> IF ln.op \in SelectOps THEN a.al /\ ln.src = ln.sel ELSE a.al]
+   \* (a result whose length differs from its grid's count is GridDimsConsistent's business, not an order question)
+   al |-> IF ln.op \in SelectOps /\ Len(ln.src) = Len(ln.sel) THEN a.al /\ ln.src = ln.sel ELSE a.al]
 
 Ended(ln, o, a) == \/ ln.out = "xr_refused" /\ o.op \notin OwnOps
                    \/ ln.out = "refused" /\ IsFree(o, a)
